@@ -1,4 +1,4 @@
-import OrdModel.Wallet.Builder
+import OrdModel.Wallet.BuilderCond
 /-! Helper lemmas for C20: the `Outcome` monad, and what an `ok` of the final stage `build`
 (every assertion passed) says about the transaction. -/
 namespace Ord.Builder
